@@ -337,4 +337,54 @@ theorem sinkSys_nil_readonly (outcome : Nat → Option Nat) :
     · rfl
     · split <;> rfl
 
+/-- a fresh invocation for event `ev` -/
+def fresh (ev : Nat) : SLoc := { event := ev }
+
+theorem alone_done (captured : List String) (outcome : Nat → Option Nat) (t n : Nat)
+    (g : String → Option Nat) (l : SLoc) (h : l.pc ≥ 3) :
+    alone (sinkSys captured outcome) t n g l = (g, l) := by
+  induction n with
+  | zero => rfl
+  | succ n ih =>
+    have h0 : ¬ l.pc = 0 := by omega
+    have h1 : ¬ l.pc = 1 := by omega
+    have h2 : ¬ l.pc = 2 := by omega
+    simp only [alone, sinkSys, sinkStep, h0, h1, h2, if_false]
+    exact ih
+
+theorem alone_fresh (outcome : Nat → Option Nat) (t n ev : Nat) (g : String → Option Nat) :
+    (alone (sinkSys [] outcome) t (n + 3) g (fresh ev)).2
+      = { event := ev, pc := 3, echo := some ev, err := outcome ev, ret := some (outcome ev) } := by
+  have : alone (sinkSys [] outcome) t (n + 3) g (fresh ev)
+      = alone (sinkSys [] outcome) t n g
+          { event := ev, pc := 3, echo := some ev, err := outcome ev, ret := some (outcome ev) } := by
+    simp [alone, sinkSys, sinkStep, fresh]
+  rw [this, alone_done _ _ _ _ _ _ (by simp)]
+
+theorem alone_never_wrong (outcome : Nat → Option Nat) (t n ev : Nat) (g : String → Option Nat) :
+    let l := (alone (sinkSys [] outcome) t n g (fresh ev)).2
+    l.event = ev ∧ (l.ret = none ∨ l.ret = some (outcome ev)) ∧ (l.echo = none ∨ l.echo = some ev) := by
+  match n with
+  | 0 => simp [alone, fresh]
+  | 1 => simp [alone, sinkSys, sinkStep, fresh]
+  | 2 => simp [alone, sinkSys, sinkStep, fresh]
+  | n + 3 => rw [alone_fresh]; simp
+
+/-! ## An explicitly shared, lock-protected global (example system) -/
+
+/-- Invocations that each add their own event id to a lock-protected global counter `total`
+    and remember the value they saw. The remembered value is the part that is *not* isolated
+    (it is explicitly shared); the private part `low` is the event id. -/
+def counterSys : Sys String Nat (Nat × Nat) :=
+  ⟨fun _ g l => (fun x => if x = "total" then g x + l.1 else g x, (l.1, g "total"))⟩
+
+theorem counterSys_writes : WritesWithin counterSys (· ∈ ([] : List String) ++ ["total"]) := by
+  intro t g l x hx
+  have : x ≠ "total" := by simpa using hx
+  simp [counterSys, this]
+
+theorem counterSys_confined : Confined counterSys (· ∈ ["total"]) (·.1) := by
+  intro t g g' l l' _ hl
+  simpa [counterSys] using hl
+
 end Ecal.Conc
